@@ -89,7 +89,7 @@ PROFILES = {
                          steps=30, conns=("c1", "c2", "c3", "c4"), w_stop=0, w_crash=0, final_quiesce=False,
                          probe_after_restart=True),
     "apps": dict(apps=["a1", "a2", "a3"], sides=["s1", "s2"], names=["1", "x"], client_mbox=["m1"],
-                 steps=60, conns=("c1", "c2", "c3", "c4")),
+                 steps=60, conns=("c1", "c2", "c3", "c4"), rebind=0.04),
     "time": dict(apps=["a1", "a2"], sides=["s1", "s2"], names=["1"], client_mbox=["m1"], steps=60,
                  w_advance=8, w_fault=1.0, w_stop=0.4),
     "crash": dict(apps=["a1", "a2"], sides=["s1", "s2"], names=["1"], client_mbox=["m1"], steps=45,
@@ -168,11 +168,12 @@ PLAN = {
                 # (the F6 witness needs 14 steps: it is replayed on the code and must conform to the
                 #  specification, witnesses/F6.json, instead of being searched for by TLC)
                 witness_mc=[]),
-    "C06": _p(["C06.frame"], [("apps", 8, 11)], ["apps"], ["apps"], ["P06"],
+    "C06": _p(["C06.frame", "C06.bind"], [("apps", 8, 11)], ["apps"], ["apps"], ["P06"],
               pairs=[("iso", 144, 4000)], pairclause="C06.pair"),
-    "C07": _p(["C07.a", "C07.b", "C07.c", "C07.d", "C07.e"], [("core", 9, 12), ("apps", 8, 11)],
+    # (C18.a, the content of `list`, is C07's "listed while it lives, gone afterwards")
+    "C07": _p(["C07.a", "C07.b", "C07.c", "C07.d", "C07.e", "C18.a"], [("core", 9, 12), ("apps", 8, 11)],
               ["core", "apps"], ["nameplate", "apps", "crowd", "script", "script2", "reuse", "crash", "boundaries"], ["P07"]),
-    "C08": _p(["C08.a", "C08.b", "C08.c", "C08.d"], [("core", 9, 12)], ["core"],
+    "C08": _p(["C08.a", "C08.b", "C08.c", "C08.d", "C08.e"], [("core", 9, 12)], ["core"],
               ["mailbox", "nameplate", "script", "script2", "reuse", "idle"], ["P08"]),
     "C04": dict(_p(["C04.a", "C04.b", "C04.c"], [("alloc", 8, 11), ("allocnl", 8, 11)], ["core"],
                    ["alloc", "nameplate"], ["P04"]),
